@@ -38,6 +38,10 @@ func (a *LabelFormatPlanner) Process(ctx *shared.PlannerContext,
 				return m
 			}
 			m[label] = val
+			if change != label {
+				// `dst=src` renames
+				delete(m, change)
+			}
 			return m
 		})
 	}
